@@ -1036,3 +1036,79 @@ func ruleMetaKey(r *Run, rule string, k *metaKind) {
 	}
 	r.Check(okNum, rule, "key:existence:numeric", site, "numeric existence = Clone(numeric[field].GetExistenceBitmap())", "numeric existence answer not found in the expected form")
 }
+
+// ruleFilterBuilders: every exported filter constructor builds the operator its name promises over its own arguments.
+func ruleFilterBuilders(r *Run, rule string) {
+	w := r.W
+	r.Doc(rule, "a filter constructor builds another operator (or other operands) than its name says")
+	direct := map[string]string{"Eq": "eq", "Ne": "ne", "Gt": "gt", "Gte": "gte", "Lt": "lt", "Lte": "lte", "In": "in", "NotIn": "not_in", "Range": "range", "Exists": "exists", "NotExists": "not_exists"}
+	alias := map[string]string{"Between": "Range", "IsNull": "NotExists", "IsNotNull": "Exists", "AnyOf": "In", "NoneOf": "NotIn"}
+	n := 0
+	for name, op := range direct {
+		fn := w.Fn(name)
+		if fn == nil {
+			r.Unres(rule, "builder:"+name, "not found")
+			continue
+		}
+		n++
+		c := NewCanon(w)
+		ok := false
+		detail := "result is not a Filter literal"
+		for _, ret := range returnsOf(fn) {
+			f, isLit := litFields(ret.Results[0])
+			if !isLit {
+				continue
+			}
+			gotOp, _ := constString(f["Operator"])
+			field := ""
+			if f["Field"] != nil {
+				field = c.S(f["Field"])
+			}
+			val := ""
+			if f["Value"] != nil {
+				val = c.S(f["Value"])
+			}
+			val2 := ""
+			if f["Value2"] != nil {
+				val2 = c.S(f["Value2"])
+			}
+			okVal := true
+			switch op {
+			case "exists", "not_exists":
+				okVal = f["Value"] == nil
+			case "range":
+				okVal = val == "P1" && val2 == "P2"
+			default:
+				okVal = val == "P1"
+			}
+			ok = gotOp == op && field == "P0" && okVal
+			detail = fmt.Sprintf("Operator=%q Field=%s Value=%s Value2=%s", gotOp, field, val, val2)
+		}
+		r.Check(ok, rule, "builder:"+name, w.Pos(fn.Pos())+" "+name, name+" builds operator "+op+" over its own field and operands", name+" builds "+detail)
+	}
+	for name, target := range alias {
+		fn := w.Fn(name)
+		if fn == nil {
+			continue
+		}
+		n++
+		ok := false
+		c := NewCanon(w)
+		for _, ret := range returnsOf(fn) {
+			if call, isCall := ret.Results[0].(*ssa.Call); isCall {
+				if g := staticCallee(call.Common()); g != nil && g.Name() == target {
+					ok = true
+					for i, a := range call.Call.Args {
+						if c.S(a) != fmt.Sprintf("P%d", i) {
+							ok = false
+						}
+					}
+				}
+			}
+		}
+		r.Check(ok, rule, "builder:"+name, w.Pos(fn.Pos())+" "+name, name+" delegates to "+target+" with its own arguments in order", name+" does not delegate to "+target+" with its arguments in order")
+	}
+	if n < 14 {
+		r.add(rule, "builder:floor", "-", fmt.Sprintf("%d filter constructors found, floor is 14", n), Floor)
+	}
+}
